@@ -7,8 +7,8 @@ package c10
 import (
 	"context"
 	"fmt"
-	"os"
 	"math/rand/v2"
+	"os"
 	"runtime"
 	"strings"
 	"sync"
@@ -94,6 +94,8 @@ type outcomeT struct {
 
 func run(t *testing.T, sc scenario, r *rand.Rand) outcomeT {
 	var out outcomeT
+	rt.Scenario(fmt.Sprintf("C10/%s/release@%s", sc.Kind, sc.Point), -1, sc)
+	defer rt.ScenarioDone()
 	precise := r.IntN(2) == 0
 	target := r.IntN(sc.Waiters)
 	if sc.Point == "handoff-vs-timeout" {
